@@ -100,6 +100,81 @@ def unit_positive(a):
     return stats
 
 
+# ------------------------------------------------------------------ adjacent steps: every ordered pair of step keywords of a dialect
+def check_pair(case, stats):
+    d, k1, k2 = case["dialect"], case["k1"], case["k2"]
+    D = DIALECTS[d]
+    l1, l2, l3 = k1 + "one", k2 + "two", k1 + "three"
+    text = "# language: %s\n%s: f\n %s: s\n  %s\n  %s\n  %s\n" % (d, D["feature"][0], D["scenario"][0], l1, l2, l3)
+    stats.case((d, k1, k2), k1 != k2 and (k1.startswith(k2) or k2.startswith(k1)), sample=case)
+    r = gh.parse(text, "en" if d != "en" else "fr")
+    if r[0] != "ok":
+        raise Violation(case, "two adjacent %s steps %r, %r rejected: %r" % (d, l1, l2, r[1][:2]))
+    steps = r[1]["feature"]["children"][0]["scenario"]["steps"]
+    got = [(s_["keyword"], s_["keywordType"], s_["text"]) for s_ in steps]
+    want = []
+    for line in (l1, l2, l3):
+        kw, ty = expected_step(d, line)
+        want.append((kw, ty, trim(line[len(kw):])))
+    if got != want:
+        raise Violation(case, "%s steps %r: AST (keyword, type, text) = %r, the language table gives %r" % (d, [l1, l2, l3], got, want))
+
+
+def unit_pairs(a):
+    stats = Stats()
+
+    def gen():
+        for i, d in enumerate(sorted(DIALECTS)):
+            if i % a["nshards"] != a["shard"]:
+                continue
+            kws = []
+            for k, _ in step_keywords(d):
+                if k not in kws:
+                    kws.append(k)
+            for k1 in kws:
+                for k2 in kws:
+                    yield {"sub": "pair", "dialect": d, "k1": k1, "k2": k2}
+    sweep(stats, gen(), check_pair)
+    return stats
+
+
+# ------------------------------------------------------------------ near misses of title keywords
+def check_nearmiss(case, stats):
+    d, cat, kw, variant = case["dialect"], case["cat"], case["kw"], case["variant"]
+    D = DIALECTS[d]
+    line = {"bare": kw, "plus-char": kw + "x", "blank-colon": kw + " :", "cut": kw[:-1] + ":", "bare-nl-less": kw, "lower": kw.lower() + ":", "colon-first": ":" + kw}[variant]
+    # context: under a scenario header of the same dialect, at the end of the document (bare-nl-less: no final line break)
+    text = "# language: %s\n%s: f\n  %s: s\n    %s%s" % (d, D["feature"][0], D["scenario"][0], line, "" if variant == "bare-nl-less" else "\n")
+    kinds = cf_kinds(d, line + "\n")
+    stats.case((d, cat, kw, variant), True, sample=case, labels=[variant])
+    if kinds or trim(line).startswith("#"):
+        stats.label("means-something(skipped)")
+        return
+    r = gh.parse(text, "en" if d != "en" else "fr")
+    if r[0] != "ok":
+        raise Violation(case, "line %r (not a keyword line of %s) under a scenario header should be description text, got %r" % (line, d, r[1][:2]))
+    f = r[1]["feature"]
+    sc = f["children"][0]["scenario"]
+    if len(f["children"]) != 1 or sc["steps"] or sc["examples"] or sc["description"] != "    " + line:
+        raise Violation(case, "line %r is not a keyword line of %s, yet the AST has children=%d steps=%r examples=%d description=%r" % (
+            line, d, len(f["children"]), sc["steps"], len(sc["examples"]), sc["description"]))
+
+
+def unit_nearmiss(a):
+    stats = Stats()
+
+    def gen():
+        for i, d in enumerate(sorted(DIALECTS)):
+            if i % a["nshards"] != a["shard"]:
+                continue
+            for cat in TITLE_CATS:
+                for kw in DIALECTS[d][cat]:
+                    for v in ("bare", "plus-char", "blank-colon", "cut", "bare-nl-less", "lower", "colon-first"):
+                        yield {"sub": "nearmiss", "dialect": d, "cat": cat, "kw": kw, "variant": v}
+    sweep(stats, gen(), check_nearmiss)
+    return stats
+
+
 # ------------------------------------------------------------------ foreign keywords
 def all_keywords():
     out = collections.OrderedDict()
@@ -157,7 +232,9 @@ def unit_foreign(a):
 def g_header(s):
     ws = ["", " ", "\t", "  ", "\xa0", "　"]
     word = s.choice(["language", "language", "language", "Language", "languag", "lang uage", "LANGUAGE"])
-    name = s.choice(["fr", "fr", "en", "no", "en-lol", "en-Scouse", "sr-Cyrl", "zh-CN", "zz", "xx-yy", "f1", "fr x", "", "fr,en", "_", "-", "émoji"])
+    name = s.choice(["fr", "fr", "en", "no", "en-lol", "en-Scouse", "sr-Cyrl", "zh-CN", "zz", "xx-yy", "f1", "fr x", "", "fr,en", "_", "-", "émoji",
+                     "[fr]", "`en`", "en^", "fr\\", "es-419", "fr2", "français", "en.us", "EN", "Fr", "en_au", "en-au", "en_lol", "sr_Cyrl", "zh_CN", "en-tx", "en_tx",
+                     "fr]", "^", "no\x0b", "日本", "ja", "en-", "-en", "e n"])
     colon = s.choice([":", ":", ":", "", "::", " ="])
     hdr = s.choice(ws) + "#" + s.choice(ws) + word + s.choice(ws) + colon + s.choice(ws) + name + s.choice(ws + ["\r", " \t", " x", "#"])
     pos = s.choice(["top", "top", "after-comment", "after-blank", "after-tag", "after-feature", "second-header"])
@@ -235,7 +312,7 @@ def unit_files(a):
 
 
 def replay(case, stats):
-    return {"kw": check_kw, "foreign": check_foreign, "header": check_header, "files": check_files}[case["sub"]](case, stats)
+    return {"kw": check_kw, "foreign": check_foreign, "pair": check_pair, "nearmiss": check_nearmiss, "header": check_header, "files": check_files}[case["sub"]](case, stats)
 
 
 def run(ctx):
@@ -244,6 +321,8 @@ def run(ctx):
     ctx.units("language-table-files", unit_files, [{}])
     ctx.units("keywords-in-role", unit_positive, [{"shard": i, "nshards": ns} for i in range(ns)], procs=ns)
     ctx.units("foreign-keywords", unit_foreign, [{"shard": i, "nshards": ns, "sample": 0, "seed": ctx.seed} for i in range(ns)], procs=ns)
+    ctx.units("adjacent-step-keyword-pairs", unit_pairs, [{"shard": i, "nshards": ns} for i in range(ns)], procs=ns)
+    ctx.units("title-keyword-near-misses", unit_nearmiss, [{"shard": i, "nshards": ns} for i in range(ns)], procs=ns)
     ctx.units("header-spellings", unit_header, [{"n": 900 if q else 6000, "seed": ctx.seed, "shard": i} for i in range(8 if q else 16)], procs=16)
     nk = sum(len(DIALECTS[d][c]) for d in DIALECTS for c in TITLE_CATS + STEP_CATS)
     ctx.exhaustive = False
